@@ -299,7 +299,10 @@ def check_iterator_reuse(ctx, res: Result, dotted, rule="G-REUSE"):
                     continue
                 # b can run after a completed (for a loop: via its `done` edge), with no re-definition of the name in between
                 start = v.cfg.succ(a[0], "done") if isinstance(a[1], ast.For) else [a[0]]
-                redefs = {v.cfg_id(d) for d in defs} - {None}
+                # every (re)binding of the name starts a new object: `scores = d.items()` ... `scores = (x for x in scores if ...)`
+                redefs = {v.cfg_id(x) for x in walk_no_nested(fi.node) if isinstance(x, ast.Name) and isinstance(x.ctx, ast.Store) and x.id == name} - {None}
+                if a[0] in redefs and not isinstance(a[1], ast.For):
+                    continue  # the use feeds the statement that rebinds the name: what is consumed is the PREVIOUS object
                 if a[0] == b[0] and not isinstance(a[1], ast.For):
                     # inside one statement: the two uses exclude each other when they sit in different arms of a conditional
                     # expression (`list(g) if c else [x for x in g if ...]`)
@@ -420,7 +423,7 @@ def check_pack(ctx, res: Result, prop_id: str):
             if imp[0] == "symbol" and imp[1] in ctx.prog.modules and imp[1].split(".")[-1].startswith("_") and ctx.prog.modules[imp[1]] not in mods:
                 mods.append(ctx.prog.modules[imp[1]])
     fis = [fi for fi in ctx.prog.functions.values() if fi.module in mods]
-    lints = (("G-STALE", check_stale_in_loop), ("G-REUSE", check_iterator_reuse), ("N-FANCYAUG", check_fancy_augassign), ("G-GROUPBY", check_groupby_sorted), ("E-SHARED", check_shared_literals), ("G-LIVEITER", check_mutation_while_iterating), ("E-DEFAULTARG", check_mutable_defaults), ("G-KEYPROJ", check_key_projection), ("K-OWNER", check_id_owner), ("G-COUNTERADD", check_counter_arith))
+    lints = (("G-STALE", check_stale_in_loop), ("G-REUSE", check_iterator_reuse), ("N-FANCYAUG", check_fancy_augassign), ("G-GROUPBY", check_groupby_sorted), ("E-SHARED", check_shared_literals), ("G-LIVEITER", check_mutation_while_iterating), ("E-DEFAULTARG", check_mutable_defaults), ("G-KEYPROJ", check_key_projection), ("K-OWNER", check_id_owner), ("G-COUNTERADD", check_counter_arith), ("G-ZEROBUCKET", check_zero_buckets), ("G-LENVALID", check_len_validated_cache), ("G-SHAPEGUESS", check_layout_guess), ("K-LABELTYPE", check_label_type_dispatch))
     seen_keys = {(o.rule, o.func, o.stmt) for o in res.obs}
     for rule, fn in lints:
         n_f = n_v = 0
@@ -706,3 +709,199 @@ def check_counter_arith(ctx, res: Result, dotted, rule="G-COUNTERADD"):
                 res.violation(rule, f, norm(node)[:100], "drops-nonpositive", "Counter `+` / `+=` keeps only keys whose total is strictly positive: a key whose accumulated score is 0 (a hyperedge isolated in every snapshot has closeness 0) disappears from the result instead of being reported with value 0", loc(fi, node))
     if n == 0:
         res.ok(rule, f, "no Counter arithmetic on score mappings", "scan", loc(fi, fi.node))
+
+
+def check_zero_buckets(ctx, res: Result, dotted, rule="G-ZEROBUCKET"):
+    """A per-key counter table of an object (`self._t[k] -= 1` somewhere in the class) from which no method ever deletes a key:
+    a bucket that went down to zero stays in the table.  Asking the table how many keys it has (`len(self._t)`) or whether a key
+    is in it (`k in self._t`) then answers for every key that EVER had a count, not for those that have one now."""
+    v = ctx.view(dotted)
+    fi = v.fi
+    f = fi.short
+    res.rules.setdefault(rule, "the key set of a counter table that is decremented but never pruned is not used as `the keys that have a count now` (len / membership)")
+    n = 0
+    cls = fi.cls
+    if cls is None:
+        res.ok(rule, f, "not a method", "scan", loc(fi, fi.node))
+        return
+
+    def self_attr(e):
+        return e.attr if isinstance(e, ast.Attribute) and isinstance(e.value, ast.Name) and e.value.id == "self" else None
+
+    uses = []
+    for x in walk_no_nested(fi.node):
+        if isinstance(x, ast.Call) and isinstance(x.func, ast.Name) and x.func.id == "len" and len(x.args) == 1 and self_attr(x.args[0]):
+            uses.append((self_attr(x.args[0]), x))
+        if isinstance(x, ast.Compare) and len(x.ops) == 1 and isinstance(x.ops[0], (ast.In, ast.NotIn)) and self_attr(x.comparators[0]):
+            uses.append((self_attr(x.comparators[0]), x))
+    for attr, use in uses:
+        dec = pruned = False
+        for m in cls.methods.values():
+            for y in ast.walk(m.node):
+                if isinstance(y, ast.AugAssign) and isinstance(y.op, ast.Sub) and isinstance(y.target, ast.Subscript) and self_attr(y.target.value) == attr:
+                    dec = True
+                if isinstance(y, ast.Delete) and any(isinstance(t, ast.Subscript) and self_attr(t.value) == attr for t in y.targets):
+                    pruned = True
+                if isinstance(y, ast.Call) and isinstance(y.func, ast.Attribute) and y.func.attr in ("pop", "popitem") and self_attr(y.func.value) == attr:
+                    pruned = True
+                # the table rebuilt without its zero entries: `self._t = {k: c for k, c in self._t.items() if c}`
+                if isinstance(y, ast.Assign) and any(self_attr(t) == attr for t in y.targets) and isinstance(y.value, ast.DictComp) and y.value.generators and y.value.generators[0].ifs:
+                    pruned = True
+        if isinstance(use, ast.Compare):
+            # `k in self._t` right before `self._t[k] -= 1` / `+= 1` is bookkeeping, not a query
+            st = v.stmt_of(use)
+            if isinstance(st, (ast.If, ast.While)) or st is None:
+                iff = v.enclosing(use, (ast.If,)) if st is None else st
+                body = [z for b in (getattr(iff, "body", []) + getattr(iff, "orelse", [])) for z in ast.walk(b)] if iff is not None else []
+                if any(isinstance(z, (ast.AugAssign, ast.Assign)) and any(isinstance(t, ast.Subscript) and self_attr(t.value) == attr for t in ([z.target] if isinstance(z, ast.AugAssign) else z.targets)) for z in body):
+                    continue
+        if dec and not pruned:
+            n += 1
+            res.violation(rule, f, norm(use)[:100], attr, f"`self.{attr}` is a counter table that is decremented (`self.{attr}[k] -= ...`) and never pruned: a key whose count fell to zero stays in it, so `{norm(use)[:50]}` answers for every key that ever had a count, not for those that have one now", loc(fi, use))
+    if n == 0:
+        res.ok(rule, f, "no key-set query on an unpruned counter table", "scan", loc(fi, fi.node))
+
+
+def check_len_validated_cache(ctx, res: Result, dotted, rule="G-LENVALID"):
+    """A remembered value (read from a module-level table, a WeakKeyDictionary, an attribute of self) is reused unless its
+    LENGTH differs from the length of what it was computed from, and refreshed (stored back) otherwise: two different
+    contents of equal size are indistinguishable to that test, so an edit that keeps the size (remove one node, add another)
+    leaves the stale value in use."""
+    v = ctx.view(dotted)
+    fi = v.fi
+    f = fi.short
+    res.rules.setdefault(rule, "a remembered value is not judged up to date by comparing its length with the length of its source (equal size is not equal content)")
+    n = 0
+
+    def root_name(e):
+        while isinstance(e, (ast.Attribute, ast.Subscript)):
+            e = e.value
+        return e if isinstance(e, ast.Name) else None
+
+    def remembered_source(name):
+        """the container / attribute a local was read from: `x = C.get(k)`, `x = C[k]`, `x = self._attr`"""
+        defs = [a for a in walk_no_nested(fi.node) if isinstance(a, ast.Assign) and len(a.targets) == 1 and isinstance(a.targets[0], ast.Name) and a.targets[0].id == name]
+        for a in defs:
+            val = a.value
+            if isinstance(val, ast.Call) and isinstance(val.func, ast.Attribute) and val.func.attr == "get" and val.args:
+                return norm(val.func.value)
+            if isinstance(val, ast.Subscript):
+                return norm(val.value)
+            if isinstance(val, ast.Attribute) and isinstance(val.value, ast.Name) and val.value.id == "self":
+                return norm(val)
+            if isinstance(val, ast.Call) and isinstance(val.func, ast.Name) and val.func.id == "getattr" and len(val.args) >= 2 and isinstance(val.args[1], ast.Constant):
+                return f"{norm(val.args[0])}.{val.args[1].value}"
+        return None
+
+    for iff in walk_no_nested(fi.node):
+        if not isinstance(iff, ast.If):
+            continue
+        for c in ast.walk(iff.test):
+            if not (isinstance(c, ast.Compare) and len(c.ops) == 1 and isinstance(c.ops[0], (ast.Eq, ast.NotEq))):
+                continue
+            sides = [c.left, c.comparators[0]]
+            if not all(isinstance(x, ast.Call) and isinstance(x.func, ast.Name) and x.func.id == "len" and len(x.args) == 1 for x in sides):
+                continue
+            for a, b in ((sides[0], sides[1]), (sides[1], sides[0])):
+                r = root_name(a.args[0])
+                if r is None or r.id == "self":
+                    src = norm(a.args[0]) if r is not None and isinstance(a.args[0], ast.Attribute) and r.id == "self" and "cache" in norm(a.args[0]).lower() else None
+                else:
+                    src = remembered_source(r.id)
+                if src is None:
+                    continue
+                # the value is stored back into the same place somewhere in the function (a refresh): it is a cache
+                refreshed = False
+                for st in walk_no_nested(fi.node):
+                    if isinstance(st, ast.Assign):
+                        for t in st.targets:
+                            if (isinstance(t, ast.Subscript) and norm(t.value) == src) or (isinstance(t, ast.Attribute) and norm(t) == src):
+                                refreshed = True
+                    if isinstance(st, ast.Call) and isinstance(st.func, ast.Name) and st.func.id == "setattr" and len(st.args) >= 2 and isinstance(st.args[1], ast.Constant) and f"{norm(st.args[0])}.{st.args[1].value}" == src:
+                        refreshed = True
+                if not refreshed:
+                    continue
+                n += 1
+                res.violation(rule, f, norm(c)[:100], src, f"the value remembered in `{src}` is taken to be up to date when `{norm(c)[:60]}` says the sizes agree: after an edit that keeps the size (one item removed, another added) the stale value is reused", loc(fi, c))
+                break
+    if n == 0:
+        res.ok(rule, f, "no cache validated by its length", "scan", loc(fi, fi.node))
+
+
+def check_layout_guess(ctx, res: Result, dotted, rule="G-SHAPEGUESS"):
+    """`if X.shape[1] == N: X = X.T` - the orientation of a matrix argument is guessed from one component of its shape.  For a
+    SQUARE matrix (as many hyperedges as nodes) both orientations pass the test, so a correctly oriented square input is
+    transposed as well: the guess cannot be right for both layouts."""
+    v = ctx.view(dotted)
+    fi = v.fi
+    f = fi.short
+    res.rules.setdefault(rule, "the orientation of a matrix argument is not guessed from a component of its shape (a square matrix satisfies the test in both orientations)")
+    n = 0
+    for iff in walk_no_nested(fi.node):
+        if not isinstance(iff, (ast.If, ast.IfExp)):
+            continue
+        subjects = set()
+        for c in ast.walk(iff.test):
+            if isinstance(c, ast.Compare) and len(c.ops) == 1 and isinstance(c.ops[0], (ast.Eq, ast.NotEq)):
+                for side in (c.left, c.comparators[0]):
+                    if isinstance(side, ast.Subscript) and isinstance(side.value, ast.Attribute) and side.value.attr == "shape" and isinstance(side.slice, ast.Constant):
+                        subjects.add(norm(side.value.value))
+        if not subjects:
+            continue
+        # `if X.shape[0] != N and X.shape[1] == N:` (or an earlier test of the other component) excludes the square case: only a
+        # lone test of ONE component is a guess
+        n_shape = sum(1 for c in ast.walk(iff.test) if isinstance(c, ast.Attribute) and c.attr == "shape" and norm(c.value) in subjects)
+        earlier = [i for i in walk_no_nested(fi.node) if isinstance(i, (ast.If, ast.IfExp, ast.Assert)) and i is not iff and getattr(i, "lineno", 0) < getattr(iff, "lineno", 0) and any(isinstance(c, ast.Attribute) and c.attr == "shape" and norm(c.value) in subjects for c in ast.walk(i.test))]
+        if n_shape != 1 or earlier:
+            continue
+        arms = (iff.body + iff.orelse) if isinstance(iff, ast.If) else [iff.body, iff.orelse]
+        for arm in arms:
+            for x in ast.walk(arm):
+                t = None
+                if isinstance(x, ast.Attribute) and x.attr == "T" and norm(x.value) in subjects:
+                    t = x
+                if isinstance(x, ast.Call) and isinstance(x.func, ast.Attribute) and x.func.attr == "transpose" and (norm(x.func.value) in subjects or (x.args and norm(x.args[0]) in subjects)):
+                    t = x
+                if t is not None:
+                    n += 1
+                    res.violation(rule, f, norm(iff.test)[:100], norm(t)[:40], f"`{norm(t)[:40]}` is applied when `{norm(iff.test)[:60]}`: the layout of the argument is guessed from one component of its shape, and a square matrix in the right layout passes the same test - it is transposed too and every quantity computed from it is wrong", loc(fi, iff))
+                    break
+            else:
+                continue
+            break
+    if n == 0:
+        res.ok(rule, f, "no orientation guessed from a shape component", "scan", loc(fi, fi.node))
+
+
+def check_label_type_dispatch(ctx, res: Result, dotted, rule="K-LABELTYPE"):
+    """`isinstance(x, tuple)` where `x` is a NODE LABEL (an element of a hyperedge): labels are arbitrary hashables - tuples
+    (grid coordinates) are legal - so the type of a label says nothing about the structure it sits in.  Code that decides
+    `directed (source, target) pair` vs `two nodes` that way mis-reads a size-2 hyperedge over tuple-labelled nodes."""
+    from .kinds import Atom, strip_none
+
+    v = ctx.view(dotted)
+    fi = v.fi
+    f = fi.short
+    res.rules.setdefault(rule, "outside the containers' own canonicaliser, the structure of a hyperedge is never decided from the Python type of a node label (labels are opaque hashables; tuple labels are legal)")
+    n = 0
+    if fi.module.relpath.startswith("hypergraphx/core/"):
+        # the canonicaliser of the temporal / multiplex containers (`_canon_edge`) tells a directed (source, target) pair from a
+        # plain hyperedge by exactly this shape test: that is the containers' documented input convention, not a client's guess
+        res.ok(rule, f, "container canonicaliser: shape convention of the input", "scan", loc(fi, fi.node))
+        return
+    for c in walk_no_nested(fi.node):
+        if not (isinstance(c, ast.Call) and isinstance(c.func, ast.Name) and c.func.id == "isinstance" and len(c.args) == 2):
+            continue
+        tnames = {x.id for x in ast.walk(c.args[1]) if isinstance(x, ast.Name)}
+        if not (tnames & {"tuple", "list", "set", "frozenset"}):
+            continue
+        try:
+            k = strip_none(ctx.interp.kind_at(fi, c.args[0]))
+        except Exception:
+            continue
+        if isinstance(k, Atom) and k.name == "NODE":
+            # only a test that steers control flow / a value (not an assertion message)
+            n += 1
+            res.violation(rule, f, norm(c)[:100], norm(c.args[0])[:40], f"`{norm(c.args[0])[:40]}` is a node label here; `{norm(c)[:60]}` dispatches on its Python type, but labels are opaque (a hyperedge of two tuple-labelled nodes has exactly the shape of a (source, target) pair): such a hyperedge is taken apart into the components of its labels", loc(fi, c))
+    if n == 0:
+        res.ok(rule, f, "no dispatch on the type of a node label", "scan", loc(fi, fi.node))
